@@ -98,10 +98,21 @@ def run(prog, chk):
     mk = callsn(f, "mkdir")
     if not mk:
         raise AnalysisBroken("Directory::create: mkdir not found")
+    defs_b = q.local_defs(f)
     for r in rets(f, 1):
         atoms = fin.dominating_atoms(f, f.node_pos(r))
         why = None
+        # the outcome of mkdir kept in a bool local (`const bool created = mkdir(dir, mode) == 0;`): the name stands for that test
+        named = []
         for a in atoms:
+            if a[0] == "case":
+                continue
+            xn_ = f.nodes[f.strip(a[0])]
+            if xn_["k"] == "DeclRefExpr" and xn_["ref"].get("dk") == "local":
+                ini_ = q.single_def(f, xn_["ref"]["id"], defs_b)
+                if ini_ is not None:
+                    named += [(n_, t_) for n_, t_ in q.cond_atoms(f, ini_, bool(a[1]))]
+        for a in list(atoms) + named:
             if a[0] == "case":
                 continue
             k = fin.key(f, a[0])
